@@ -110,6 +110,10 @@ class CustomBase(BaseException):
     """A BaseException subclass that is not an Exception."""
 
 
+class CaptureUndefined(LookupError):
+    """Raised by a capture which is evaluated for arguments it is not defined for."""
+
+
 EXC_KINDS = {
     "ValueError": ValueError,
     "BodyError": BodyError,
@@ -206,6 +210,9 @@ class Hub:
         hook = self.hooks.get(id_)
         if hook is not None:
             hook(id_, got)
+        if self.truth.get("snap:" + id_, self.truth.get("snap:*")) == "raise":
+            # a capture which is only defined for the arguments the preconditions admit (`lst[0]` behind `len(lst) > 0`)
+            raise CaptureUndefined("capture {} is not defined for these arguments".format(id_))
         val = Tok("old:" + id_)  # type: Any
         if self.truth.get("snap:" + id_) == "alias" and got:
             val = next(iter(got.values()))
@@ -217,6 +224,12 @@ class Hub:
         spec = self.truth.get("error:" + id_)
         if spec == "nonexc":
             return "not an exception"
+        if spec == "nonexc-none":
+            return None  # (a factory which builds the exception and forgets to return it)
+        if spec == "nonexc-class":
+            return ValueError  # (the class instead of an instance)
+        if spec == "nonexc-zero":
+            return 0
         code = sum(map(ord, id_))
         err = (BaseFactoryError if code % 5 == 2 else FalsyFactoryError if code % 3 == 0 else FactoryError)(id_)
         self.factory_made.setdefault(id_, []).append(err)
